@@ -160,6 +160,13 @@ Proof.
   - intros Hin. exists x. split; [assumption | apply N.eqb_refl].
 Qed.
 
+Lemma same_set_spec : forall a b, same_set a b = true <-> (forall id, In id a <-> In id b).
+Proof.
+  intros a b. unfold same_set, subsetb. rewrite andb_true_iff, !forallb_forall. split.
+  - intros [H1 H2] id. split; intro Hin; apply memb_spec; auto.
+  - intros H. split; intros x Hx; apply memb_spec; apply H; assumption.
+Qed.
+
 Theorem obs_hard_ok_sound : forall maxsize committed admitted would o,
     obs_hard_ok maxsize committed admitted would o = true <->
     NoDup (concat (o_pend o)) /\
@@ -167,25 +174,34 @@ Theorem obs_hard_ok_sound : forall maxsize committed admitted would o,
     (o_esync o = true -> forall id, In id (concat (o_pend o)) -> ~ In id committed) /\
     (o_esync o = true -> o_replay o = (-1)%Z) /\
     total o <= maxsize + o_nsp o /\
-    ~ (admitted = true /\ would = 0).
+    ~ (admitted = true /\ would = 0) /\
+    (forall id, In id (o_ids o) <-> In id (concat (o_pend o))) /\
+    (forall id, In id (o_lkp o) <-> In id (concat (o_pend o))) /\
+    o_cnt o = total o.
 Proof.
   intros maxsize committed admitted would o. unfold obs_hard_ok.
   rewrite !andb_true_iff, nodupb_spec, !orb_true_iff, !negb_true_iff, N.leb_le, Z.eqb_eq.
-  rewrite forallb_forall, andb_false_iff, N.eqb_neq.
+  rewrite forallb_forall, andb_false_iff, !same_set_spec, !N.eqb_eq.
   split.
-  - intros [[[[[H1 H0] H2] H3] H4] H5]. repeat split; auto.
-    + intros Hs. destruct H0 as [H0|H0]; [congruence | assumption].
-    + intros Hs id Hin Hc. destruct H2 as [H2|H2]; [congruence|].
-      specialize (H2 _ Hin). apply negb_true_iff in H2. apply memb_spec in Hc. congruence.
-    + intros Hs. destruct H3 as [H3|H3]; [congruence | assumption].
-    + intros [Ha Hw]. destruct H5 as [H5|H5]; congruence.
-  - intros [H1 [H0 [H2 [H3 [H4 H5]]]]]. repeat split; auto.
+  - intros [[[[[[[[H1 H0] H2] H3] H4] H5] H6] H7] H8].
+    split; [exact H1|]. split.
+    { intros Hs. destruct H0 as [H0|H0]; [congruence | assumption]. }
+    split.
+    { intros Hs id Hin Hc. destruct H2 as [H2|H2]; [congruence|].
+      specialize (H2 _ Hin). apply negb_true_iff in H2. apply memb_spec in Hc. congruence. }
+    split.
+    { intros Hs. destruct H3 as [H3|H3]; [congruence | assumption]. }
+    split; [exact H4|]. split.
+    { intros [Ha Hw]. destruct H5 as [H5|H5]; [congruence|]. apply N.eqb_neq in H5. congruence. }
+    auto.
+  - intros [H1 [H0 [H2 [H3 [H4 [H5 [H6 [H7 H8]]]]]]]].
+    refine (conj (conj (conj (conj (conj (conj (conj (conj H1 _) _) _) H4) _) H6) H7) H8).
     + destruct (o_esync o); [right; auto | left; reflexivity].
     + destruct (o_esync o); [right | left; reflexivity].
       intros id Hin. apply negb_true_iff. destruct (memb id committed) eqn:E; [| reflexivity].
       apply memb_spec in E. exfalso. exact (H2 eq_refl _ Hin E).
     + destruct (o_esync o); [right; auto | left; reflexivity].
-    + destruct admitted; [| left; reflexivity]. right. intro Hw. apply H5. auto.
+    + destruct admitted; [| left; reflexivity]. right. apply N.eqb_neq. intro Hw. apply H5. auto.
 Qed.
 
 (* ---------- how the pending list may change across one call ---------- *)
